@@ -72,6 +72,8 @@ type PeerOpts struct {
 	ResumeSid      string
 	ResumeKey      []byte // key the requester holds (nil: none)
 	ResumeResponse bool
+	// ResumeExtra: attributes added to (or replacing those of) the resumption request ad; a nil value removes one.
+	ResumeExtra map[string]any
 	// resumption (scripted server)
 	ResumeReply string // "AUTHORIZED", "SID_NOT_FOUND", "GARBAGE", "CLOSE", "DENIED"
 	// FS sub-protocol
@@ -525,6 +527,13 @@ func ScriptedClient(conn *BufConn, o PeerOpts, limit time.Duration) (log *PeerLo
 		_ = ra.Set("ResumeResponse", o.ResumeResponse)
 		_ = ra.Set("RemoteVersion", "$CondorVersion: 25.4.0 2025-10-31 BuildID: 1 $")
 		_ = ra.Set("CryptoMethods", "AES")
+		for k, v := range o.ResumeExtra {
+			if v == nil {
+				ra.Delete(k)
+			} else {
+				_ = ra.Set(k, v)
+			}
+		}
 		if err := sendAd(ctx, s, putCmd, ra); err != nil {
 			return fail(err)
 		}
